@@ -68,8 +68,15 @@ Init ==
 
 -----------------------------------------------------------------------------
 (* helpers                                                                   *)
-Rep(x, e, k) == [x EXCEPT !.evq[e] = Append(@, [k |-> k, id |-> 0])]
-Panic(x, e, tag) == [x EXCEPT !.alive[e] = FALSE, !.kf = @ \cup {tag}]
+\* The protocol loop reports k to the user.  If a Connection task of an earlier stream has not yet
+\* reported Closed, this report overtakes it in the user's event queue (tag).
+Lagging(x, e) == \E c \in x.ct[e] : ~(x.st[e].k = "open" /\ x.st[e].task = c.id)
+Rep(x, e, k) == [x EXCEPT !.evq[e] = Append(@, [k |-> k, id |-> 0]),
+                          !.kf = IF Lagging(x, e) THEN @ \cup {"report-overtakes-closed"} ELSE @]
+\* a panic (debug_assert!) of the protocol loop; panics that follow a stale shutdown notice (see
+\* ProtoShutdown) are consequences of that defect and carry its tag
+Panic(x, e, tag) == [x EXCEPT !.alive[e] = FALSE,
+                              !.kf = @ \cup {IF "stale-shutdown-notice" \in x.kf THEN "panic-after-stale-shutdown-notice" ELSE tag}]
 SetSt(x, e, s) == [x EXCEPT !.st[e] = s]
 \* drop / close the end of substream s held by endpoint e
 DropEnd(x, e, s) == IF s = 0 THEN x
@@ -278,8 +285,13 @@ ProtoShutdown(e) ==
   /\ w.alive[e] /\ ~B1(w, e) /\ B2(w, e)
   \* `context.state = PeerState::Closed { pending_open: None }` whatever the state was
   \* (an overwritten PeerState::Open drops its shutdown sender: that Connection task closes too)
-  /\ LET x1 == IF w.st[e].k = "open" THEN SignalTask(w, e, w.st[e].task) ELSE w IN
-     Step([(IF w.st[e].k = "none" THEN w ELSE SetSt(DropState(x1, e), e, Closed(0))) EXCEPT !.sdq[e] = Tail(@)])
+  /\ LET t == Head(w.sdq[e])
+         s == w.st[e]
+         \* the notice is stale when the peer state has moved on since that task's stream
+         stale == ~(s.k = "none" \/ (s.k = "open" /\ s.task = t) \/ (s.k = "closed" /\ s.po = 0))
+         x0 == IF stale THEN [w EXCEPT !.kf = @ \cup {"stale-shutdown-notice"}] ELSE w
+         x1 == IF s.k = "open" THEN SignalTask(x0, e, s.task) ELSE x0 IN
+     Step([(IF s.k = "none" THEN x1 ELSE SetSt(DropState(x1, e), e, Closed(0))) EXCEPT !.sdq[e] = Tail(@)])
 
 ProtoTransport(e) ==
   /\ w.alive[e] /\ ~B1(w, e) /\ ~B2(w, e) /\ B4(w, e)
@@ -313,13 +325,18 @@ CtDetect(e) ==
     /\ c.st = "run" /\ CtClosable(w, e, c)
     /\ Step([DropEnd(DropEnd(w, e, c.i), e, c.o) EXCEPT
                !.ct[e] = (@ \ {c}) \cup {[c EXCEPT !.st = IF c.sig THEN "report" ELSE "notify"]}])
-\* conn_closed_tx.send(peer).await (if not asked to shut down by the protocol) and then
-\* report_notification_stream_closed().await: two sends into channels with free capacity complete
-\* without yielding, so the task cannot be descheduled between them (assumption: channels not full)
+\* conn_closed_tx.send(peer).await -- only if the protocol did not ask for the shutdown
+\* (every .await may yield: tokio's cooperative budget makes channel operations return Pending
+\*  after a burst of work in the same poll, so the task can be descheduled between the two sends)
+CtNotify(e) ==
+  \E c \in w.ct[e] :
+    /\ c.st = "notify"
+    /\ Step([w EXCEPT !.sdq[e] = Append(@, c.id), !.ct[e] = (@ \ {c}) \cup {[c EXCEPT !.st = "report"]}])
+\* report_notification_stream_closed().await
 CtReport(e) ==
   \E c \in w.ct[e] :
-    /\ c.st \in {"notify", "report"}
-    /\ Step(Rep([w EXCEPT !.ct[e] = @ \ {c}, !.sdq[e] = IF c.st = "notify" THEN Append(@, "sd") ELSE @], e, "closed"))
+    /\ c.st = "report"
+    /\ Step([w EXCEPT !.ct[e] = @ \ {c}, !.evq[e] = Append(@, [k |-> "closed", id |-> 0])])
 
 -----------------------------------------------------------------------------
 (* environment: the connection (ConnLife guarantees)                          *)
@@ -354,7 +371,7 @@ EnvDialFail(e) ==
 
 \* every internal step that needs no timer
 Fast == \/ \E e \in E : ProtoHs(e) \/ ProtoShutdown(e) \/ ProtoTransport(e) \/ ProtoValidation(e) \/ ProtoCommand(e)
-                       \/ CtDetect(e) \/ CtReport(e) \/ EnvDialFail(e)
+                       \/ CtDetect(e) \/ CtNotify(e) \/ CtReport(e) \/ EnvDialFail(e)
         \/ EnvOpenOk \/ EnvOpenFail
 
 \* timers arm: "peer didn't answer": outbound open, no inbound substream
@@ -424,7 +441,8 @@ Spec == Init /\ [][Next]_vars
 
 -----------------------------------------------------------------------------
 (* invariants                                                                 *)
-MonOK == \A e \in E : mon[e].bad = ""
+Tagged == w.kf \cap KnownTags # {}
+MonOK == Tagged \/ \A e \in E : mon[e].bad = ""
 \* Poisoned / debug_assert!(false) arms: only the recorded ones may be reachable
 NoUnknownPanic == w.kf \subseteq KnownTags
 \* nothing can happen any more without the user or a fault
@@ -432,7 +450,7 @@ Quiescent == /\ \A e \in E : w.alive[e]
              /\ ~ENABLED Internal
              /\ w.oreq = {}
              /\ \A e \in E : w.evq[e] = <<>> /\ w.hsI[e].sub = 0 /\ w.hsO[e].sub = 0
-QuiesceOK == Quiescent => \A e \in E : MonQuiesce(mon[e], TRUE).bad = ""
+QuiesceOK == (Quiescent /\ ~Tagged) => \A e \in E : MonQuiesce(mon[e], TRUE).bad = ""
 \* handle and protocol agree at quiescence (an open stream in the user's view has a live task or state Open)
 View == w
 GenView == w
